@@ -366,6 +366,58 @@ func runC06(ctx *report.Ctx) {
 		}
 		c06Run(ctx, c, "RF-refused-host-operation", wrapProgram(body), "refused host operation", true, 1)
 	})
+	// LOOP-RETYPE: a compound assignment that has succeeded before (the node is entered again through a jump) meets a variable
+	// to which the host has meanwhile given another type: an error like the first time it would have been, never a panic
+	part(ctx, "LOOP-RETYPE", -1, func(c *explore.Chooser) {
+		ops := []string{"+=", "-=", "*=", "/=", "%="}
+		type rt struct {
+			init, rhs *yc.Expr
+			ops       []string
+			to        []yc.Value
+		}
+		kinds := []rt{
+			{yc.ENumber(0), yc.ENumber(1), ops, []yc.Value{yc.Str("two"), yc.Bool(true)}},
+			{yc.EString("a"), yc.EString("b"), []string{"+="}, []yc.Value{yc.Num(2), yc.Bool(false)}},
+		}
+		k := kinds[c.Choose(len(kinds), "kind")]
+		op := k.ops[c.Choose(len(k.ops), "op")]
+		to := k.to[c.Choose(len(k.to), "retyped-to")]
+		at := 1 + c.Choose(4, "after-step")
+		if !c.Mine() {
+			return
+		}
+		p := &yc.Program{Nodes: []*yc.Node{
+			{Title: "A", Body: []*yc.Stmt{yc.Declare("x", k.init), yc.Jump("Loop")}},
+			{Title: "Loop", Body: []*yc.Stmt{yc.Set("x", op, k.rhs), yc.LineOf(&yc.LineSpec{Parts: []yc.Part{{Src: "x=", Want: "x="}, {E: yc.EVariable("x")}}}), yc.Jump("Loop")}},
+		}}
+		srcs := yc.Render(p, nil)
+		w := fmt.Sprintf("loop over <<set $x %s ...>>, after step %d the host writes $x = %s", op, at, to)
+		ctx.Current("LOOP-RETYPE: " + w)
+		wo := yc.WalkOpts{MaxSteps: 8, MaxJumps: 7, StrictErrors: true, ContinueAfterError: true, CompareStore: true, DevBudget: -1,
+			Host: func(ch *explore.Chooser, step int, m *yc.Machine, st variable.Storer) {
+				if step != at {
+					return
+				}
+				switch to.K {
+				case yc.VNum:
+					st.SetNumberValue("x", to.N)
+				case yc.VBool:
+					st.SetBooleanValue("x", to.B)
+				default:
+					st.SetStringValue("x", to.S)
+				}
+				m.Store["x"] = to
+			}}
+		mm, st := yc.Walk(p, srcs, &yc.HostSpec{}, wo)
+		ctx.AddEvals(1, 1)
+		ctx.AddStates(st.Steps)
+		ctx.AddTransitions(st.Steps)
+		ctx.AddTraces(st.Paths)
+		if mm != nil {
+			ctx.Violation(report.Violation{Clause: "fault-" + mm.Clause, Witness: w + " :: " + scriptOf(srcs), Detail: fmt.Sprintf("%s; observed trace %v", mm.Detail, mm.Trace), Choices: c.Choices(), Part: "LOOP-RETYPE",
+				Extra: map[string]any{"scripts": srcs}})
+		}
+	})
 	// HC: host configuration includes the state the host restores: snapshots it built itself (a save file holding
 	// only some fields: nil maps) restored before the dialogue runs; every path, continuing after errors: no panic
 	part(ctx, "HC-host-snapshot", -1, func(c *explore.Chooser) {
